@@ -80,7 +80,7 @@ TReceive ==
   /\ CASE r.how = "honest" -> Deliver(r.ch)
        [] r.how = "replay" -> Replay(r.ch, ReplayTerm(r.of))
        [] OTHER            -> Fault(r.ch, r.how)
-  /\ r.out = last'.out
+  /\ (IF r.out = "undecodable" THEN "refused" ELSE r.out) = last'.out   \* a reply the decoder refuses never reaches the customer
   /\ r.same = (last'.out = "refused")
   /\ TwinOK(r)
   /\ IF cust[r.ch].stage = "started" /\ last'.out = "ok"
